@@ -2,6 +2,7 @@
 from __future__ import annotations
 
 import ast
+import functools
 import re
 
 from ..pymodel import package
@@ -369,7 +370,7 @@ def _r2(ctx, pkg):
     allowed_now = {("naunet/templateloader.py", "TemplateLoader.__init__"), ("naunet/configuration.py", "BaseConfiguration.content")}
     for f, line in now:
         fn = _enclosing(pkg.modules[f], None, line)
-        ok = (f, fn) in allowed_now
+        ok = (f, fn) in allowed_now or any(f == af and _helper_of(pkg, fn, aq) for af, aq in allowed_now)
         ctx.check(ok, "R2", f"{f}:{fn}:datetime.now", (f, line), "embedded date (excluded by the property)" if ok else "an additional time source reaches generated output")
     for f, line, s in bad:
         # render.py checks directories with os.listdir only for emptiness
@@ -379,6 +380,35 @@ def _r2(ctx, pkg):
             continue
         ctx.bad("R2", f"{f}:{fn}:{s}", (f, line), f"`{s}` is a source of run-to-run variation in a module that takes part in code generation")
     ctx.floor("R2", "datetime.now sites", len(now), 2)
+
+
+def _helper_of(pkg, qual, owner_qual) -> bool:
+    """qual is a private method of the class of owner_qual that is reached (through self./cls. calls of private methods) from
+    owner_qual and called from nowhere else in the class: it is a piece of owner_qual"""
+    if "." not in qual or "." not in owner_qual or qual.split(".")[0] != owner_qual.split(".")[0]:
+        return False
+    cname, m = qual.split(".", 1)
+    ci = pkg.classes.get(cname)
+    if ci is None or not _private(m) or m not in ci.methods:
+        return False
+
+    def callees(fn):
+        return {c.func.attr for c in ast.walk(fn) if isinstance(c, ast.Call) and isinstance(c.func, ast.Attribute) and isinstance(c.func.value, ast.Name)
+                and c.func.value.id in ("self", "cls") and c.func.attr in ci.methods}
+    owner = owner_qual.split(".", 1)[1]
+    if owner not in ci.methods:
+        return False
+    reach, todo = set(), [owner]
+    while todo:
+        x = todo.pop()
+        for y in callees(ci.methods[x]):
+            if y not in reach and _private(y):
+                reach.add(y)
+                todo.append(y)
+    if m not in reach:
+        return False
+    others = [k for k, fn in ci.methods.items() if k != owner and k not in reach and m in callees(fn)]
+    return not others
 
 
 def _enclosing(mod, node, line=None):
@@ -441,6 +471,37 @@ def _global_writes(pkg):
                         out.append((f, qual, n.lineno, o.value.id, o.attr, n.func.attr))
                     elif isinstance(o, ast.Name) and o.id in names:
                         out.append((f, qual, n.lineno, "module", o.id, n.func.attr))
+                # the table handed to a helper of the same class that changes its parameter in place: the caller writes it
+                if isinstance(n, ast.Call) and isinstance(n.func, ast.Attribute) and isinstance(n.func.value, ast.Name) and "." in qual:
+                    cname = qual.split(".")[0]
+                    ci = pkg.classes.get(cname)
+                    if ci is not None and n.func.value.id in ("cls", "self", cname) and n.func.attr in ci.methods and ci.methods[n.func.attr] is not fn:
+                        callee = ci.methods[n.func.attr]
+                        params = [a.arg for a in callee.args.args]
+                        if "staticmethod" not in {ast.unparse(d) for d in callee.decorator_list}:
+                            params = params[1:]
+                        mutated = _params_mutated(callee)
+                        bound = list(zip(params, n.args)) + [(k.arg, k.value) for k in n.keywords if k.arg in params]
+                        for p_, a in bound:
+                            if p_ in mutated and isinstance(a, ast.Attribute) and a.attr in names and isinstance(a.value, ast.Name) \
+                                    and a.value.id in ("cls", "Species", "KROMEReaction", "chemistrydata"):
+                                out.append((f, qual, n.lineno, a.value.id, a.attr, f"{n.func.attr}({p_}).{mutated[p_]}"))
+    return out
+
+
+@functools.lru_cache(maxsize=None)
+def _params_mutated(fn) -> dict:
+    """parameter -> the in-place operation the function applies to it (the parameter is never re-bound)"""
+    params = {a.arg for a in fn.args.args + fn.args.kwonlyargs}
+    rebound = {n.id for n in ast.walk(fn) if isinstance(n, ast.Name) and isinstance(n.ctx, ast.Store)}
+    out = {}
+    for n in ast.walk(fn):
+        if isinstance(n, ast.Call) and isinstance(n.func, ast.Attribute) and n.func.attr in STATE_MUTATORS and isinstance(n.func.value, ast.Name) and n.func.value.id in params - rebound:
+            out.setdefault(n.func.value.id, n.func.attr)
+        elif isinstance(n, (ast.Assign, ast.AugAssign, ast.Delete)):
+            for t in (n.targets if isinstance(n, (ast.Assign, ast.Delete)) else [n.target]):
+                if isinstance(t, ast.Subscript) and isinstance(t.value, ast.Name) and t.value.id in params - rebound:
+                    out.setdefault(t.value.id, "item store")
     return out
 
 
@@ -631,7 +692,8 @@ class _InstallSummary:
 def _r3(ctx, pkg):
     discovered_state(ctx, pkg, "R3")
     writes = _global_writes(pkg)
-    ctx.floor("R3", "writes to process-global state", len(writes), 25)
+    # counted per (writer, table): how many statements a writer spreads the write over is a matter of style
+    ctx.floor("R3", "writes to process-global state", len({(w[1], w[4]) for w in writes}), 25)
     seen = set()
     for f, qual, line, owner, attr, how in writes:
         q = qual
@@ -643,7 +705,7 @@ def _r3(ctx, pkg):
             ctx.ok("R3", key, (f, line), "EnzoPatch.render saves and restores the element list around its temporary additions") if _patch_restores(pkg) else \
                 ctx.bad("R3", key, (f, line), "the patch renderer changes the known-element list and does not restore it")
             continue
-        ok = q in SANCTIONED
+        ok = q in SANCTIONED or _only_called_by_sanctioned(pkg, q)
         ctx.check(ok, "R3", f"writer {key}", (f, line), f"sanctioned writer: {SANCTIONED.get(q, '')}" if ok else
                   f"`{qual}` writes the process-global `{attr}` ({how}); it is not one of the sanctioned writers: state set for one network leaks into the next one built in the same process")
     # installation discipline in Network
@@ -708,6 +770,22 @@ def _r3(ctx, pkg):
                   "re-installed by Network for every network" if ok else
                   f"`{owner}.{attr}` is process-global, written by the render command / update_* helpers, and no Network entry point re-installs or clears it: "
                   "values configured for one network are used for every later network in the process")
+
+
+def _only_called_by_sanctioned(pkg, qual) -> bool:
+    """a private method of a class all of whose callers (inside the class; nobody outside may call it) are sanctioned writers does
+    their work: the write is theirs"""
+    if "." not in qual:
+        return False
+    cname, m = qual.split(".", 1)
+    ci = pkg.classes.get(cname)
+    if ci is None or not _private(m):
+        return False
+    callers = [k for k, fn in ci.methods.items() if k != m and any(
+        isinstance(c, ast.Call) and isinstance(c.func, ast.Attribute) and c.func.attr == m and isinstance(c.func.value, ast.Name) and c.func.value.id in ("cls", "self", cname)
+        for c in ast.walk(fn))]
+    used_elsewhere = any(isinstance(n, ast.Attribute) and n.attr == m for f_ in pkg.files if f_ != ci.file for n in ast.walk(pkg.modules[f_]))
+    return bool(callers) and not used_elsewhere and all(f"{cname}.{k}" in SANCTIONED for k in callers)
 
 
 def _patch_restores(pkg):
@@ -820,7 +898,25 @@ MUTANTS += [
     {"name": "initialize-only-for-first-string", "file": NF, "old": "            if rclass:\n                rclass.initialize()\n            else:\n                raise RuntimeError(f\"Unknown format: {format}\")",
      "new": "            fresh = not self.reaction_list\n            if not rclass:\n                raise RuntimeError(f\"Unknown format: {format}\")\n            if fresh:\n                rclass.initialize()", "rules": ["R4"]},
 ]
+_RESET = "    @classmethod\n    def reset(cls) -> None:\n"
+MUTANTS += [
+    {"name": "table-cleared-through-helper-by-new-writer", "file": SP, "old": _RESET,
+     "new": "    @classmethod\n    def forget(cls) -> None:\n        cls._drop(cls._known_elements)\n\n    @staticmethod\n    def _drop(table) -> None:\n        table.clear()\n\n" + _RESET, "rules": ["R3"]},
+    {"name": "time-stamp-in-helper-of-another-function", "edits": [
+        {"file": "naunet/configuration.py", "old": "    @property\n    def content(self) -> str:\n",
+         "new": "    def _stamp(self) -> str:\n        return datetime.now().strftime(\"%H%M%S\")\n\n    @property\n    def content(self) -> str:\n"},
+        {"file": "naunet/configuration.py", "old": "        general[\"name\"] = self._name\n", "new": "        general[\"name\"] = self._name + self._stamp()\n"},
+        {"file": "naunet/configuration.py", "old": "        self._network_grains = []\n\n    def _stamp", "new": "        self._network_grains = []\n        self._tag = self._stamp()\n\n    def _stamp"}], "rules": ["R2"]},
+]
 BENIGN = [
+    {"name": "creation-time-in-private-helper-of-content", "edits": [
+        {"file": "naunet/configuration.py", "old": "    @property\n    def content(self) -> str:\n",
+         "new": "    def _fill_general(self, general) -> None:\n        general[\"creation_time\"] = datetime.now().strftime(\"%d/%m/%Y %H:%M:%S\")\n\n    @property\n    def content(self) -> str:\n"},
+        {"file": "naunet/configuration.py", "old": "        general[\"creation_time\"] = datetime.now().strftime(\"%d/%m/%Y %H:%M:%S\")\n        general[\"name\"]", "new": "        self._fill_general(general)\n        general[\"name\"]"}]},
+    {"name": "tables-extended-through-shared-helper", "edits": [
+        {"file": SP, "old": "                cls._known_pseudoelements.remove(ele)\n                cls._known_elements.append(ele)\n            else:\n                cls._known_elements.append(ele)\n",
+         "new": "                cls._move(ele, cls._known_pseudoelements, cls._known_elements)\n            else:\n                cls._move(ele, None, cls._known_elements)\n"},
+        {"file": SP, "old": _RESET, "new": "    @staticmethod\n    def _move(ele, src, dst) -> None:\n        if src is not None:\n            src.remove(ele)\n        dst.append(ele)\n\n" + _RESET}]},
     {"name": "installation-in-private-helper", "edits": [
         {"file": NF, "old": _INST, "new": "        self._install_lists()\n", "count": 6},
         {"file": NF, "old": _HELPER_AT, "new": "    def _install_lists(self) -> None:\n" + _INST + "\n" + _HELPER_AT}]},
